@@ -91,6 +91,12 @@ impl LocalFunction {
                 InstrLocId::new(pos as u32)
             };
             validator.op(pos, &inst)?;
+            if ctx.controls.is_empty() {
+                // The validator only reports operators that follow the `end`
+                // closing the function body from `finish`, and accepts e.g. a
+                // trailing `i32.const` here; there is no frame left to append to.
+                anyhow::bail!("operators remaining after end of function");
+            }
             append_instruction(&mut ctx, inst, loc);
             instruction_mapping.insert(pos - code_address_offset, loc);
         }
